@@ -708,8 +708,8 @@ def r4_rbe3_order(ctx):
                         st[2].append(_show(sel, 240))
     if not sites:
         raise AnchorError("formrbe3: no ordering step against the USET table (locate.mat_intersect with the table's [id, dof] index)")
-    for node, bad, unclear in sorted(sites.values(), key=lambda x: (x[0].lineno, x[0].col_offset)):
-        inst = "formrbe3: rows / columns are ordered against the [id, dof] index of the USET table in *table* order (a row selection made with " \
+    for k, (node, bad, unclear) in enumerate(sorted(sites.values(), key=lambda x: (x[0].lineno, x[0].col_offset))):
+        inst = f"formrbe3 (ordering step {k + 1}): rows / columns are ordered against the [id, dof] index of the USET table in *table* order (a row selection made with " \
                "mkdofpv(uset, 'p', <id list>) is in the order of the id list - `maintains the order of DOF as specified` - not of the table)"
         if unclear and not bad:
             ctx.error(inst, node, {"row selection of the reference table": unclear[0]})
